@@ -10,6 +10,16 @@ FLAGS = [(False, True), (True, True), (False, False), (True, False)]   # (_inpla
 
 
 class Hist5(ig.Hist):
+    groups = None    # [start, end) op-index ranges of paired relation runs (kept intact by the shrinker)
+
+    def begin_group(self):
+        if self.groups is None:
+            self.groups = []
+        return len(self.ops)
+
+    def end_group(self, start):
+        self.groups.append([start, len(self.ops)])
+
     def flags(self, inplace=None):
         r = self.rng.random()
         inp, if_ = FLAGS[0] if r < 0.45 else FLAGS[1] if r < 0.85 else FLAGS[2] if r < 0.93 else FLAGS[3]
@@ -96,7 +106,9 @@ class Hist5(ig.Hist):
         rng = self.rng
         r = rng.random()
         if r < 0.62:
-            a = rng.choice(self.attrs_of(cid))
+            attrs = self.attrs_of(cid)
+            nested = [a for a in attrs if a["ty"] == ("spec", 1)]
+            a = rng.choice(nested) if nested and rng.random() < 0.25 else rng.choice(attrs)
             kind = rng.choice(["with", "with", "update", "transform", "reset"])
             return self.scalar_call(x, cid, a, kind, inplace)
         return self.top_call(x, cid, rng.choice(["update_top", "transform_top", "reset_top"]), inplace)
@@ -106,6 +118,7 @@ class Hist5(ig.Hist):
         """y = x.h(args); c = deepcopy(x); c.h(args, _inplace=True); y and c agree on every attribute"""
         op = self.random_call(x, cid, inplace=False)
         op[3]["if_"] = True
+        g = self.begin_group()
         mark = len(self.ops)
         y = self.add(op, ("inst", cid))
         # arguments must be built afresh for the second run: re-issue the allocations made for the first
@@ -115,6 +128,7 @@ class Hist5(ig.Hist):
         r = self.add(op2, ("inst", cid))     # the receiver itself when the call succeeds
         for a in self.attrs_of(cid):
             self.add(("same", y, r, a["aid"]), None)
+        self.end_group(g)
 
     def clone_call(self, op, mark, recv):
         """the same call with freshly allocated copies of the argument objects created since `mark`"""
@@ -162,6 +176,7 @@ class Hist5(ig.Hist):
     def rel_setattr_vs_with(self, x, cid):
         """c1 = deepcopy(x); c2 = deepcopy(x); c1.a = v; c2.with_a(v, _inplace=True); c1 and c2 agree"""
         a = self.rng.choice(self.attrs_of(cid))
+        g = self.begin_group()
         c1 = self.add(("deepcopy", x), ("inst", cid))
         c2 = self.add(("deepcopy", x), ("inst", cid))
         mark = len(self.ops)
@@ -172,6 +187,7 @@ class Hist5(ig.Hist):
         r = self.add(op2, ("inst", cid))     # c2 itself when the call succeeds
         for b in self.attrs_of(cid):
             self.add(("same", c1, r, b["aid"]), None)
+        self.end_group(g)
 
 
 def gen_history(rng, table, nd, n_ops, rel_rate=0.2):
@@ -199,7 +215,7 @@ def gen_history(rng, table, nd, n_ops, rel_rate=0.2):
             h.add(("delattr", x, a["aid"]), ("none",))
         else:
             h.add(h.random_call(x, cid), ("inst", cid))
-    return h.ops
+    return h.ops, (h.groups or [])
 
 
 def sanitize(case):
@@ -225,15 +241,49 @@ def sanitize(case):
                 break
         if bad is None:
             return case
-        c2 = ic.drop_op(case, bad)
+        c2 = drop_op(case, bad)
         if c2 is None:
-            return dict(case, ops=case["ops"][:bad])
+            return truncate(case, bad)
         case = c2
     return case
+
+
+def drop_op(case, j):
+    """inst_common.drop_op, keeping the relation-group ranges in step"""
+    c2 = ic.drop_op(case, j)
+    if c2 is None:
+        return None
+    groups = []
+    for a, b in case.get("groups", []):
+        if j < a:
+            groups.append([a - 1, b - 1])
+        elif j < b:
+            if b - 1 > a:
+                groups.append([a, b - 1])
+        else:
+            groups.append([a, b])
+    c2["groups"] = groups
+    return c2
+
+
+def truncate(case, n):
+    return dict(case, ops=case["ops"][:n], groups=[[a, min(b, n)] for a, b in case.get("groups", []) if a < n])
+
+
+def droppable(case, j):
+    """an operation inside a relation group is part of a paired run: only the
+    equality oracles themselves may be dropped one at a time"""
+    op = case["ops"][j][0]
+    if op[0] == "same":
+        return True
+    for a, b in case.get("groups", []):
+        if a <= j < b and any(case["ops"][i][0][0] == "same" for i in range(a, min(b, len(case["ops"])))):
+            return False
+    return True
 
 
 def gen_case(rng, n_ops=6, rel_rate=0.2, flavour=None):
     table = ig.gen_table(rng, flavour)
     _, heap0 = ic.resolve_table(table)
-    ops = gen_history(rng, table, len(heap0), n_ops, rel_rate)
-    return sanitize({"table": table, "ops": ops, "nd": len(heap0)})
+    ops, groups = gen_history(rng, table, len(heap0), n_ops, rel_rate)
+    return sanitize({"table": table, "ops": ops, "nd": len(heap0), "groups": groups})
